@@ -710,7 +710,9 @@ class Effect(DaeObject):
             value = Map.load(collada, localscope, vnode)
         elif vnode.tag == collada.tag('param'):
             refid = vnode.get('ref')
-            if refid is not None and refid in localscope:
+            # only a float or colour parameter is a value; the scope also holds
+            # the surfaces and samplers of the effect
+            if refid is not None and isinstance(localscope.get(refid), (float, tuple)):
                 value = localscope[refid]
             else:
                 return None
